@@ -352,6 +352,9 @@ func c10(ctx *Ctx) (*Outcome, error) {
 	for i := 0; i < ctx.N(10, 20); i++ {
 		cases = append(cases, sameStemCase(i))
 	}
+	for i := 0; i < 20; i++ {
+		cases = append(cases, crossPackageCase(i))
+	}
 	for i := 0; i < 8; i++ {
 		cases = append(cases, bothDefsKeywordsCase(i))
 	}
